@@ -326,4 +326,63 @@ func TestC08(t *testing.T) { h.RunProp(t, "C08", genC08, checkC08) }
 func TestC08_Replay(t *testing.T) {
 	h.RunReplay(t, "C08", checkC08)
 	h.RunReplay(t, "C08.capture", checkC08Capture)
+	h.RunReplay(t, "C08.seq", checkC08Seq)
 }
+
+// C08Seq: the same service provider instance validates genuine responses before and after its certificate
+// store (and clock) are replaced — key roll-over. Each genuine response must be accepted under the
+// configuration in force when it arrives, and reproduce its model.
+type C08Seq struct {
+	Steps []C08Case `json:"steps"`
+}
+
+func genC08Seq(t *rapid.T) C08Seq {
+	var q C08Seq
+	n := rapid.IntRange(2, 3).Draw(t, "steps")
+	first := rapid.IntRange(0, 2).Draw(t, "firstKey")
+	for i := 0; i < n; i++ {
+		c := genC08(t)
+		// every step trusts exactly ONE IdP key, a different one each time
+		key := []string{"T1", "T2", "T3"}[(i+first)%3]
+		c.SP.Store = []h.CertRef{{Key: key, Window: "wide"}}
+		if len(q.Steps) > 0 {
+			c.SP.NowUnixNano, c.SP.NowOffset = q.Steps[0].SP.NowUnixNano, q.Steps[0].SP.NowOffset
+			c.SP.ACS, c.SP.IdPIssuer, c.SP.Audience, c.SP.Enc = q.Steps[0].SP.ACS, q.Steps[0].SP.IdPIssuer, q.Steps[0].SP.Audience, q.Steps[0].SP.Enc
+		}
+		g := h.GenGenuine(c.SP, []string{key}, h.ModelOpts{Text: h.TextOpts{MaxLen: 3, NoCR: false}, AttrText: h.TextOpts{MaxLen: 3, NoCDEnd: true}, MaxAssert: 2}, true).Draw(t, "issue")
+		_, enc, _, err := g.Render()
+		if err != nil {
+			t.Fatalf("harness: %v", err)
+		}
+		c.Issue, c.Encoded, c.Encoded2, c.Feat = g, enc, enc, nil
+		q.Steps = append(q.Steps, c)
+	}
+	return q
+}
+
+func checkC08Seq(q C08Seq) h.Outcome {
+	o := h.Outcome{NonTrivial: true, Classes: []string{fmt.Sprintf("steps:%d", len(q.Steps))}}
+	sp := q.Steps[0].SP.Build()
+	for i, c := range q.Steps {
+		sp.IDPCertificateStore = h.Store(c.SP.Store) // the clock object stays the same
+		resp, err := sp.ValidateEncodedResponse(c.Encoded)
+		if err != nil {
+			o.Violation = h.V("reused-sp/genuine-rejected", "step %d: a genuine response signed by the currently trusted certificate %v is rejected by a long-lived service provider: %v", i+1, c.SP.Store, err)
+			return o
+		}
+		if d := compareResponse(&c.Issue.Model, resp); d != "" {
+			o.Violation = h.V("reused-sp/"+mismatchSig(d), "step %d: %s", i+1, d)
+			return o
+		}
+		// and the previous step's message, signed by the key that is no longer trusted, must now be refused
+		if i > 0 {
+			if _, err := sp.ValidateEncodedResponse(q.Steps[i-1].Encoded); err == nil {
+				o.Violation = h.V("reused-sp/retired-key-still-trusted", "step %d: a response signed by the retired certificate %v is still accepted", i+1, q.Steps[i-1].SP.Store)
+				return o
+			}
+		}
+	}
+	return o
+}
+
+func TestC08_PSeq(t *testing.T) { h.RunProp(t, "C08.seq", genC08Seq, checkC08Seq) }
